@@ -35,7 +35,11 @@ def run_property(pid, program, tier, known=None):
     rules = list(mod.RULES)
     if tier == "thorough":
         rules += list(getattr(mod, "THOROUGH_RULES", []))
-    results, ctx = report.run_rules(pid, rules, program, tier)
+    # Since round 6 both tiers analyse the whole package (rules widen their scope when ctx.tier is
+    # "thorough"; that costs 1-6 s per property): a change hidden in a module the property does not anchor
+    # (seed C17_10 sat in hypergraph.py) must not wait for the thorough tier.  What the thorough tier adds
+    # is the self-validation of the rules (break / twin variants), see main().
+    results, ctx = report.run_rules(pid, rules, program, "thorough")
     new, matched, stale = report.summarise(pid, results, known)
     return mod, results, ctx, new, matched, stale
 
